@@ -20,11 +20,7 @@ structure C04State where
   note : String := ""
 
 def autoKey (codec : VCodecS) (h : AbsHist) (d : Bytes) : Bool :=
-  match codec with
-  | .h264 => (nalTypesH264 d).contains 5
-  | .h265 => (nalTypesH265 d).any fun t => 19 ≤ t && t ≤ 21
-  | .av1 => h.video.isEmpty
-  | .vp9 => (match isVp9Keyframe d with | .ok b => b | _ => false)
+  autoKeyOf (match codec with | .h264 => .h264 | .h265 => .h265 | .av1 => .av1 | .vp9 => .vp9) h.video.isEmpty d
 
 def checkReply (viol : List Violation) (r : PR) (isFinish : Bool) : Bool × String :=
   match r with
